@@ -93,19 +93,19 @@ func DamageLine(line string, rng *PRNG) (string, string) {
 			case 2:
 				return "  " + strings.Join(tok, "   ") + "  ", "extra_spaces"
 			default:
-				return strings.Join(tok, " \t "), "mixed_ws"
+				return strings.Join(tok, []string{" \t ", "\f", "\u00a0", "\v", "\u3000"}[rng.Intn(5)]), "mixed_ws"
 			}
 		case 9: // bytes inside a token
 			i := rng.Intn(len(tok))
 			t := append([]string{}, tok...)
-			b := []string{"\x00", "\x7f", "é", "\xff\xfe", "\x1b[0m", " "}[rng.Intn(6)]
+			b := []string{"\x00", "\x7f", "é", "\xff\xfe", "\x1b[0m", "\u2028", "\f", "\v", "\u00a0", "\u3000"}[rng.Intn(10)]
 			p := rng.Intn(len(t[i]) + 1)
 			t[i] = t[i][:p] + b + t[i][p:]
 			return strings.Join(t, " "), "bytes_in_token"
 		case 10: // only the command word
 			return tok[0], "command_only"
 		case 11: // empty / blank
-			return []string{"", " ", "\t", "\r"}[rng.Intn(4)], "blank"
+			return []string{"", " ", "\t", "\r", "\f", "\v", "\u00a0", "\u3000", "\u0085", "\u2028", "\t\f\t", " \u00a0 ", "\v\v"}[rng.Intn(13)], "blank"
 		case 12: // upper case
 			return strings.ToUpper(line), "upper_case"
 		case 13: // FEN payload damage (F8)
